@@ -19,6 +19,15 @@ renumbering (LIST == model, `Undefined line x in y` for missing targets, rejecte
 the program unchanged); every later observation (ERROR n in direct mode -> armed error trap,
 GOTO <wait loop> with an event scheduled -> armed event trap, RUN under a schedule) must give
 the same output in A as in B once the line numbers in error messages are mapped back.
+About a third of the programs are *staged*: each stage puts every event trap (KEY(n), TIMER, PEN,
+STRIG(0), PLAY) into some state - defined only, ON, ON then STOP, STOP only, ON then OFF, ON before it
+is defined, not defined yet - pauses at main level (STOP, or a loop in which a position-keyed
+Ctrl-Break arrives; sometimes also a STOP in the error handler), and after the pause defines what
+is missing, switches the traps ON and waits for them. The history is RUN, then per pause RENUM
+(arm B: a REM, so that both arms can CONT) and CONT with the events keyed to the stage's wait
+loop (n-th statement boundary on that line of the original numbering; TIMER and PLAY through
+steps of the simulated clock). The CONT output must be the same in both arms. COM traps cannot
+fire (no serial back end in the simulation) and are left out.
 """
 
 import os
@@ -39,16 +48,22 @@ RULE = ('C13: one evaluation = one simulated edit history on one Session (8-400 
         'tuples; non-trivial = LIST was compared with the model after the op. '
         'C14: one evaluation = one generated program run in two Sessions (with / without RENUM) under one '
         'event schedule; distinct = distinct (op kind, RENUM outcome, which argument given, position of the '
-        'armed trap lines relative to `old`, program-size bucket, event kind) tuples; non-trivial = the '
+        'armed trap lines relative to `old`, RENUM in a pause before CONT or not, program-size bucket, event kind) '
+        'tuples; non-trivial = the '
         'renumbered listing and at least one post-RENUM behaviour were compared.')
 REAL = ['pcbasic.basic (whole package): tokeniser, lister, Program, Interpreter.renum_, Files/DiskDevice/'
         'InternalDiskDevice, TextFile/BinaryFile, protect/unprotect, console line editor (AUTO)',
         'host tmpfs for every file operation that is not faulted']
-STUB = ['wall clock (simulated)', 'interface queues (simulated; keyboard, pen, joystick signals scripted)',
-        'host file system errors (injected by sim.simfs wrappers)', 'cassette and serial devices (not attached)']
+STUB = ['wall clock (simulated)', 'interface queues (simulated; keyboard, pen, joystick signals scripted; audio queue recorded)',
+        'host file system errors (injected by sim.simfs wrappers)', 'cassette and serial devices (not attached: COM traps cannot fire)']
 ASSUMPTIONS = [
     'line text comes from templates whose listing is canonical (tokenise/list round trip is C17, not judged here)',
     'C14 arm B uses MERGE of an empty file as the un-renumbered counterpart of RENUM (same stack reset, no renumbering)',
+    'C14 RENUM in a pause that is followed by CONT: arm B executes REM instead; the engine drops the GOSUB/FOR/WHILE '
+    'stacks at RENUM, which the property does not speak about, so nothing is compared after a pause at which a stack '
+    'was not empty (read from the engine only to gate the comparison)',
+    'C14 assumes that CONT after RENUM continues the program (GW-BASIC does; the property compares the behaviour of '
+    'the renumbered program with the original one, which includes the rest of a paused run)',
     'torn binary (B/P) program files: no equality is claimed after LOAD, only absence of internal errors (tagged C01)',
 ]
 BATCH = 10
@@ -1075,8 +1090,11 @@ def _gen_program(rng, tier, pause=False):
         if not evs:
             evs = [rng.choice(['key', 'timer', 'pen', 'strig', 'play'])]
         rng.shuffle(evs)
+        # sometimes the error handler pauses as well: RENUM while an error is being handled
+        ehpause = have_eh and R() < 0.12
     else:
         evs = [e for e in ('key', 'timer', 'pen', 'strig') if R() < (0.45 if e in ('key', 'timer') else 0.2)]
+        ehpause = False
     keyno = rng.choice([1, 2, 10, 11])
     handlers_first = R() < 0.45
     nblocks = rng.randint(2, 8) if quick else rng.randint(4, 25)
@@ -1105,6 +1123,8 @@ def _gen_program(rng, tier, pause=False):
         # error handlers
         if have_eh:
             pb.add(['PRINT "%s";ERR' % pb.uid('EH')], lab=eh, role='eh')
+            if ehpause:
+                pb.add(['STOP'], role='pause')
             for site, after in sites[:2]:
                 pb.add(['IF ERL=', ('@', site), ' THEN PRINT "%s":RESUME ' % pb.uid('S'), ('@', after)], role='eh')
             pb.add(['IF ERR=11 THEN X%=1:RESUME'], role='eh')
@@ -1385,7 +1405,7 @@ def _gen_program(rng, tier, pause=False):
         lines.append({'op': 'line', 'n': nums[i], 'parts': parts, 'role': ln['role']})
     info = {
         'waits': [labels[x] for x in waits], 'evs': evs, 'keyno': keyno, 'nums': nums,
-        'stages': [dict(st, bl=labels.get(st['bl']), wl=labels[st['wl']]) for st in stages],
+        'stages': [dict(st, bl=labels.get(st['bl']), wl=labels[st['wl']]) for st in stages], 'ehpause': ehpause,
         'traps': [labels[x] for x in [eh] * have_eh + [evlab[e] for e in evs]],
     }
     return lines, info
@@ -1448,6 +1468,11 @@ def gen14(rng, tier):
         # wait loop, where the program has switched its traps on
         stages = info['stages']
         ops.append({'op': 'run', 'ev': _gen_events(rng, info, 10 + 2 * len(lines)) + brk(stages[0])})
+        if info['ehpause']:
+            # the program also pauses in its error handler: a few more RENUM / CONT rounds
+            for _ in range(rng.randint(1, 2)):
+                ops.append(dict(renum_op(), keep=True))
+                ops.append({'op': 'cont', 'ev': brk(stages[0])})
         for i, st in enumerate(stages):
             op = renum_op()
             if rng.random() < 0.5:
@@ -1709,7 +1734,7 @@ def _arm14(run, w, case, root, do_renum, decisions):
                     if problem or nums != sorted(M.lines):
                         run.violate('C14', 'renum-chain:%s' % (problem or 'numbers-differ'), 'links give %r, model %r' % (nums[:60], sorted(M.lines)[:60]))
                     run.state('C14', 'renum', accepted, plan['ok'], op.get('new') is None, op.get('old') is None,
-                              op.get('step') is None, len(M.lines) > 10, bool(plan['missing']), trapcls, not r.errs)
+                              op.get('step') is None, len(M.lines) > 10, bool(plan['missing']), trapcls, not r.errs, keep)
                 else:
                     dec = decisions.get(i)
                     if dec is True:
